@@ -58,10 +58,32 @@ def read_set(tree):
     return found
 
 
+def named_ident(py_name):
+    return "namedSet" + "".join(ch if ch.isalnum() else "_" for ch in py_name)
+
+
+def read_named_sets(tree):
+    """every other module-level `NAME = frozenset([...])` / set / tuple / list literal of strings -> {name: [strings]}"""
+    out = {}
+    for node in tree.body:
+        if isinstance(node, ast.Assign) and len(node.targets) == 1 and isinstance(node.targets[0], ast.Name) \
+                and node.targets[0].id != SET_NAME:
+            v = node.value
+            if isinstance(v, ast.Call) and isinstance(v.func, ast.Name) and v.func.id in ("frozenset", "set", "tuple") \
+                    and len(v.args) == 1 and not v.keywords:
+                v = v.args[0]
+            if isinstance(v, (ast.List, ast.Tuple, ast.Set)) and v.elts and all(
+                    isinstance(e, ast.Constant) and isinstance(e.value, str) for e in v.elts):
+                out[node.targets[0].id] = [e.value for e in v.elts]
+    return out
+
+
 class RuleTr:
     """translation of the body of `commutation_rules(self, ind1, ind2, instructions)`"""
 
-    def __init__(self, fn, has_set):
+    def __init__(self, fn, has_set, named_sets=None):
+        self.named = named_sets or {}
+        self.used_named = set()
         self.has_set = has_set
         self.uses_set = False
         self.fresh = 0
@@ -127,6 +149,9 @@ class RuleTr:
                         raise TranslatorError(f"commutation_rules uses {SET_NAME}, which the module does not define")
                     self.uses_set = True
                     c = f"(inSet {l})"
+                elif isinstance(rhs, ast.Name) and rhs.id in self.named:      # another module-level literal set: `namedSet…`
+                    self.used_named.add(rhs.id)
+                    c = f"({named_ident(rhs.id)}.contains {l})"
                 elif isinstance(rhs, (ast.Tuple, ast.List, ast.Set)) and all(
                         isinstance(x, ast.Constant) and isinstance(x.value, str) for x in rhs.elts):
                     c = "([" + ", ".join(lean_str(x.value) for x in rhs.elts) + f"].contains {l})"
@@ -197,32 +222,86 @@ class RuleTr:
         raise TranslatorError("unsupported statement in commutation_rules: " + ast.dump(s)[:160])
 
 
-def len_bound(tree):
-    """The guard of the same-name part of `commutation_rules` on gates given by many targets:
-    `if len(i1.targets) > k or len(i2.targets) > k: return False` directly at the top level of the function body
-    -> k (None: no such guard).  The guard itself is translated like every other statement; `k` is only used to say which
-    instructions the tree can declare self-commuting at all (`flagged`)."""
+def same_name_guards(tree):
+    """The guards of the same-name part of `commutation_rules`: the statements `if <cond>: return False` at the top level of
+    the function body (after the different-name block) before the decision.  Each must say something about ONE
+    instruction (`i1.name not in _SELF_COMMUTING_GATES` -- the names are equal there) or the same thing about both
+    (`c(i1) or c(i2)`).  -> list of (per-instruction condition as ast, variable name, descriptor for the harness):
+      {"kind": "set"} | {"kind": "len", "k": k} | {"kind": "lensym", "k": k, "names": [...]}
+    `flagged a` of the generated file is the conjunction of the negated conditions at `a`."""
     fn = find_method(tree, "Scheduler", "commutation_rules")
-    found = None
-    for st in fn.body:
-        if not (isinstance(st, ast.If) and isinstance(st.test, ast.BoolOp) and isinstance(st.test.op, ast.Or)
-                and len(st.test.values) == 2 and not st.orelse and len(st.body) == 1 and isinstance(st.body[0], ast.Return)
-                and isinstance(st.body[0].value, ast.Constant) and st.body[0].value.value is False):
-            continue
-        ks, vars_ = [], []
-        for v in st.test.values:
+    named = read_named_sets(tree)
+    out = []
+
+    def one(c):
+        """descriptor of a per-instruction condition -> (variable, descriptor) or None"""
+        def lencmp(v):
             if (isinstance(v, ast.Compare) and len(v.ops) == 1 and isinstance(v.ops[0], ast.Gt)
                     and isinstance(v.left, ast.Call) and isinstance(v.left.func, ast.Name) and v.left.func.id == "len"
                     and len(v.left.args) == 1 and isinstance(v.left.args[0], ast.Attribute) and v.left.args[0].attr == "targets"
                     and isinstance(v.left.args[0].value, ast.Name)
                     and isinstance(v.comparators[0], ast.Constant) and type(v.comparators[0].value) is int):
-                ks.append(v.comparators[0].value)
-                vars_.append(v.left.args[0].value.id)
-        if len(ks) == 2 and ks[0] == ks[1] and vars_[0] != vars_[1]:
-            if found is not None:
-                raise TranslatorError("two length guards in commutation_rules")
-            found = ks[0]
-    return found
+                return v.left.args[0].value.id, v.comparators[0].value
+            return None
+        if isinstance(c, ast.Compare) and len(c.ops) == 1 and isinstance(c.ops[0], ast.NotIn) and isinstance(c.left, ast.Attribute) \
+                and c.left.attr == "name" and isinstance(c.left.value, ast.Name) and isinstance(c.comparators[0], ast.Name) \
+                and c.comparators[0].id == SET_NAME:
+            return c.left.value.id, {"kind": "set"}
+        lc = lencmp(c)
+        if lc:
+            return lc[0], {"kind": "len", "k": lc[1]}
+        if isinstance(c, ast.BoolOp) and isinstance(c.op, ast.And) and len(c.values) == 2:
+            lc = lencmp(c.values[0])
+            n = c.values[1]
+            if lc and isinstance(n, ast.Compare) and len(n.ops) == 1 and isinstance(n.ops[0], ast.NotIn) \
+                    and isinstance(n.left, ast.Attribute) and n.left.attr == "name" and isinstance(n.left.value, ast.Name) \
+                    and n.left.value.id == lc[0] and isinstance(n.comparators[0], ast.Name) and n.comparators[0].id in named:
+                return lc[0], {"kind": "lensym", "k": lc[1], "names": named[n.comparators[0].id]}
+        return None
+
+    started = False
+    for st in fn.body:
+        is_guard = (isinstance(st, ast.If) and not st.orelse and len(st.body) == 1 and isinstance(st.body[0], ast.Return)
+                    and isinstance(st.body[0].value, ast.Constant) and st.body[0].value.value is False)
+        if not is_guard:
+            if started:
+                break
+            continue
+        started = True
+        c = st.test
+        d = one(c)
+        if d is not None:
+            if d[1]["kind"] != "set":
+                raise TranslatorError("a guard of commutation_rules looks at one of the two instructions only")
+            out.append((c, d[0], d[1]))
+            continue
+        if isinstance(c, ast.BoolOp) and isinstance(c.op, ast.Or) and len(c.values) == 2:
+            d1, d2 = one(c.values[0]), one(c.values[1])
+            if d1 and d2 and d1[1] == d2[1] and d1[0] != d2[0]:
+                out.append((c.values[0], d1[0], d1[1]))
+                continue
+        raise TranslatorError("a guard `if …: return False` of the same-name part of commutation_rules is not recognised")
+    return out
+
+
+def guard_info(tree):
+    try:
+        return [g[2] for g in same_name_guards(tree)]
+    except TranslatorError:
+        return None
+
+
+def alias_ok(tree):
+    """`InstructionsGraph.__init__` copies every instruction separately (a list comprehension / loop of deepcopy), so that
+    the same Instruction object listed several times becomes several nodes; `deepcopy(instructions)` of the whole list keeps
+    the aliasing (the nodes then share their predecessor / successor sets and distances)"""
+    fn = find_method(tree, "InstructionsGraph", "__init__")
+    for node in ast.walk(fn):
+        if isinstance(node, ast.Assign) and isinstance(node.value, ast.Call) and isinstance(node.value.func, ast.Name) \
+                and node.value.func.id == "deepcopy" and len(node.value.args) == 1 and isinstance(node.value.args[0], ast.Name) \
+                and node.value.args[0].id == "instructions":
+            return False
+    return True
 
 
 def repeat_cycles_ok(tree):
@@ -369,8 +448,9 @@ GENERATED by py/translate/sched.py from `qutip_qip/compiler/scheduler.py` of the
 
 * `selfCommuting`     the literal `_SELF_COMMUTING_GATES` (`none`: the module has no such set)
 * `inSet`             `name in _SELF_COMMUTING_GATES`
-* `lenBound`, `flagged`  the same-name part refuses gates with more than `k` targets (`none`: no such guard); `flagged a`:
-                      the tree can declare `a` commuting with a gate of its own name at all (the model's `Ins.sc`)
+* `flagged a`         the conjunction of the negated guards `if …: return False` of the same-name part at `a` (name in the
+                      set; on a repaired tree: not a gate given by several non-interchangeable targets): the tree can declare
+                      `a` commuting with a gate of its own name at all (the model's `Ins.sc`)
 * `commutationRules`  the body of `Scheduler.commutation_rules` (`a = instructions[ind1]`, `b = instructions[ind2]`),
                       statement by statement; code after an `if` is repeated in both branches
 * `conflictFix`       `_add_dependency_among_commuting_gates` also records an edge from every executed instruction
@@ -394,7 +474,7 @@ def generate():
         raise TranslatorError(f"cannot parse {path}: {e}")
     names = read_set(tree)
     fn = find_method(tree, "Scheduler", "commutation_rules")
-    tr = RuleTr(fn, names is not None)
+    tr = RuleTr(fn, names is not None, read_named_sets(tree))
     body = tr.block(list(fn.body), {}, 1)
     if names is not None and not tr.uses_set:
         raise TranslatorError(f"the module defines {SET_NAME} but commutation_rules does not consult it")
@@ -403,7 +483,9 @@ def generate():
         raise TranslatorError("find_topological_order does not pass the executed instructions")
     mtests = method_tests(tree)
     comb = constraint_combination(tree)
-    lb = len_bound(tree)
+    guards = same_name_guards(tree)
+    gtr = RuleTr(fn, names is not None, read_named_sets(tree))
+    preds = [gtr.cond(c, {var: ("ins", "a")}) for c, var, _ in guards]
     out = [HEADER]
     if names is None:
         out.append("def selfCommuting : Option (List String) := none\n\n")
@@ -411,15 +493,18 @@ def generate():
         out.append("def selfCommuting : Option (List String) := some\n  [" +
                    ",\n   ".join(", ".join(lean_str(n) for n in names[i:i + 8]) for i in range(0, len(names), 8)) + "]\n\n")
     out.append("def inSet (s : String) : Bool :=\n  match selfCommuting with\n  | none => true\n  | some l => l.contains s\n\n")
-    out.append("def lenBound : Option Nat := " + ("none" if lb is None else f"some {lb}") + "\n\n")
-    out.append("def flagged (a : Ins) : Bool :=\n  inSet a.name && (match lenBound with | none => true | some k => decide (a.targets.length ≤ k))\n\n")
+    for nm in sorted(tr.used_named | gtr.used_named):
+        out.append(f"/-- the module-level literal `{nm}` -/\ndef {named_ident(nm)} : List String :=\n  ["
+                   + ", ".join(lean_str(x) for x in tr.named[nm]) + "]\n\n")
+    out.append("def flagged (a : Ins) : Bool :=\n  " + (" && ".join(f"(!{p_})" for p_ in preds) if preds else "true") + "\n\n")
     out.append("def commutationRules (a b : Ins) : Bool :=\n" + "\n".join(body) + "\n\n")
     out.append(f"def conflictFix : Bool := {'true' if fx else 'false'}\n\n")
     out.append("def methodTests : List String := [" + ", ".join(lean_str(t) for t in mtests) + "]\n\n")
     out.append("def alapAt (k : Nat) (m : Option String) : Bool := m == some (methodTests.getD k \"\")\n\n")
     out.append(f"def applyConstraint (vs : List Bool) : Bool := vs.{comb} id\n\n")
     out.append("end QipVerif.Gen.SchedRule\n")
-    return "".join(out), {"names": names, "conflict_fix": fx, "len_bound": lb, "repeat_cycles_ok": repeat_cycles_ok(tree)}
+    return "".join(out), {"names": names, "conflict_fix": fx, "guards": [g[2] for g in guards], "repeat_cycles_ok": repeat_cycles_ok(tree),
+                              "alias_ok": alias_ok(tree)}
 
 
 _INFO = {}
@@ -454,7 +539,7 @@ def info():
             raise TranslatorError(f"cannot parse {k[0]}: {e}")
         _INFO.clear()
         _INFO[k] = {"names": read_set(tree), "conflict_fix": conflict_fix(tree, strict=False)}
-        for key, f in (("len_bound", len_bound), ("repeat_cycles_ok", repeat_cycles_ok)):
+        for key, f in (("guards", guard_info), ("repeat_cycles_ok", repeat_cycles_ok), ("alias_ok", alias_ok)):
             try:
                 _INFO[k][key] = f(tree)
             except TranslatorError:
